@@ -379,7 +379,9 @@ func runC14(c *Ctx) {
 				okR, _ := allOrigins(recv, oCall(-1, "(rt.ClientRequest).GetHeaderParams"))
 				return k == serverHdr && okR
 			})), "", true)
-			c.obI("R14.6", d, "default-only-without-authorization-header", guardedBy(d, nil, noHdr), "the default credential is applied only when no Authorization header is already set", "")
+			// a nil header map holds no Authorization either
+			noMap := factNil(vOrigins(oCall(-1, "(rt.ClientRequest).GetHeaderParams")), true)
+			c.obI("R14.6", d, "default-only-without-authorization-header", guardedBy(d, nil, anyFact(noHdr, noMap)), "the default credential is applied only when no Authorization header is already set", "")
 			recv, _ := callArgs(d.Common())
 			c.obI("R14.6", d, "applies-the-default", vFieldLoadO(runtimeT, "DefaultAuthentication")(recv), "what is applied is the transport's default credential", "")
 			// the wrapper applies nothing else
